@@ -65,10 +65,10 @@ def render(tokens, tmpdir, tag, save_early=False):
     return out, files
 
 
-def load_graph(kind, path):
+def load_graph(kind, path, fmt=None):
     """cnfgen graph object from a saved file, through the independent reader."""
     from cnfgen.graphs import Graph, BipartiteGraph, DirectedGraph
-    k, size, E = c15_ref.read_saved(kind, FMT[kind], path)
+    k, size, E = c15_ref.read_saved(kind, fmt or FMT[kind], path)
     if kind == "simple":
         Gr = Graph(size)
         for e in sorted(tuple(sorted(x)) for x in E):
@@ -753,6 +753,80 @@ def case_file_reuse(ctx, rseed):
                 ref = g.SubgraphFormula(big, fresh())
                 same_formula(ctx, "subgraph[file-reuse]", "cnfgen subgraph -G <file> splitedges 2 -H <same file>", F2, ref)
                 ctx.judged(("file-reuse-2", fmt), nontrivial=True)
+            # (c) the first use stores its modified graph onto the very file the second use names: the second graph
+            # argument is the file as it is when that argument is reached, i.e. what 'save' left there
+            for tool in ("cnfgen", "pbgen"):
+                K = classes(tool)
+                for which in ("iso", "subgraph"):
+                    again = os.path.join(tmp, "again." + fmt)
+                    shutil.copyfile(path, again)
+                    if which == "iso":
+                        tail = ["iso", again, "plantclique", "4", "save", fmt, again, "-e", again]
+                    else:
+                        tail = ["subgraph", "-H", again, "addedges", "2", "save", fmt, again, "-G", again]
+                    st3, F3 = run_cli(tool, tail, 7)
+                    ctx.count("file_reuse_checks")
+                    label = "%s %s" % (tool, " ".join("<file>" if t == again else t for t in tail))
+                    if st3 != "ok":
+                        ctx.violation("%s:file-argument-fails" % which, "%s: %s %r" % (label, st3, F3))
+                        continue
+                    now = load_graph("simple", again, fmt)
+                    ctx.count("save_onto_the_input_file")
+                    if sorted(map(tuple, now.edges())) == sorted(E):
+                        ctx.violation("%s:save-did-not-store-the-modified-graph" % which, "%s: the file still holds the original graph" % label)
+                        continue
+                    ref = g.GraphIsomorphism(now, load_graph("simple", again, fmt), formula_class=K) if which == "iso" else \
+                        g.SubgraphFormula(load_graph("simple", again, fmt), now, formula_class=K)
+                    same_formula(ctx, which + "[file-reuse]", label, F3, ref)
+                    ctx.judged(("file-reuse-3", fmt, tool, which), nontrivial=True, sample={"command": label})
+    finally:
+        shutil.rmtree(tmp, ignore_errors=True)
+
+
+def case_kthlist_texts(ctx):
+    """kthlist2pebbling against 'cnfgen peb' on the same kthlist text, for texts with unusual white space and control
+    characters inside lines: whatever one of them makes of the file (a formula or a refusal), the other does too."""
+    from ..cliharness import run_main
+    base = "c steps of the proof\n5\n1 : 0\n2 : 0\n3 : 1 2 0\n4 : 2 3 0\n5 : 1 4 0\n"
+    odd = ["\x0b", "\x0c", "\x1c", "\x1d", "\x1e", "\x85", "\u2028", "\u2029", "\xa0", "\t", "\r", "\u3000", "\ufeff", "\x00"]
+    texts = [("plain", base), ("crlf", base.replace("\n", "\r\n")), ("trailing blanks", base.replace("\n", "  \n")),
+             ("no final newline", base.rstrip("\n")), ("empty lines", base.replace("\n", "\n\n"))]
+    for ch in odd:
+        name = "U+%04X" % ord(ch)
+        texts.append((name + " as the blank between predecessors", base.replace("3 : 1 2 0", "3 : 1" + ch + "2 0")))
+        texts.append((name + " inside a comment, followed by an adjacency line's text", base.replace("c steps of the proof", "c was: " + ch + "3 : 1 0")))
+        texts.append((name + " inside a comment, followed by a number", base.replace("c steps of the proof", "c was " + ch + "7")))
+        texts.append((name + " at the end of a line", base.replace("4 : 2 3 0", "4 : 2 3 0" + ch)))
+        texts.append((name + " before the vertex count", base.replace("\n5\n", "\n" + ch + "5\n")))
+    tmp = tempfile.mkdtemp(prefix="c17k-")
+    try:
+        for i, (what, text) in enumerate(texts):
+            path = os.path.join(tmp, "d%d.kthlist" % i)
+            with open(path, "w", encoding="utf-8", newline="") as f:
+                f.write(text)
+            runs = {"kthlist2pebbling -i <file>": run_main("kthlist2pebbling", ["-q", "-i", path]),
+                    "kthlist2pebbling < file": run_main("kthlist2pebbling", ["-q"], stdin_text=text.replace("\r\n", "\n").replace("\r", "\n")),   # as a text stream delivers it
+                    "cnfgen peb kthlist <file>": run_main("cnfgen", ["-q", "peb", "kthlist", path]),
+                    "cnfgen peb <file>": run_main("cnfgen", ["-q", "peb", path])}
+            ctx.count("kthlist_texts_compared")
+            outcome = {}
+            for k, o in runs.items():
+                if o.exc is not None:
+                    ctx.violation("kthlist-text:raises:%s" % type(o.exc).__name__, "%s on a kthlist file with %s: %r" % (k, what, o.exc))
+                    outcome[k] = ("exc",)
+                elif o.rc != 0:
+                    outcome[k] = ("refused",)
+                else:
+                    outcome[k] = ("ok", tuple(strip_comments(o.out, "c")))
+            ref = outcome["cnfgen peb kthlist <file>"]
+            for k, v in outcome.items():
+                if v[0] != "exc" and ref[0] != "exc" and v != ref:
+                    ctx.violation("kthlist2pebbling:text:%s" % ("other-formula" if v[0] == ref[0] else "one-refuses"),
+                                  "kthlist file with %s: '%s' -> %s, 'cnfgen peb kthlist <file>' -> %s"
+                                  % (what, k, v[0] if v[0] != "ok" else "formula with %d lines" % len(v[1]),
+                                     ref[0] if ref[0] != "ok" else "formula with %d lines" % len(ref[1])))
+                    break
+            ctx.judged(("kthlist-text", what), nontrivial=ref[0] == "ok", sample={"file": what, "outcome": ref[0]})
     finally:
         shutil.rmtree(tmp, ignore_errors=True)
 
@@ -867,5 +941,6 @@ def workload(tier, seed):
         yield "chains", {"rseed": seed * 1000 + i, "count": 12}
     yield "files", {}
     yield "output_options", {}
+    yield "kthlist_texts", {}
     for i in range(2 if tier == "quick" else 10):
         yield "file_reuse", {"rseed": seed * 10 + i}
